@@ -178,7 +178,7 @@ Proof.
   unfold add_common. destruct (lf_at st l) as [f|]; [|intros H; inv H; auto].
   destruct (get_or_make_set st ty sn) as [st1 sid] eqn:Hg. intros H Hi.
   destruct (gms_struct _ _ _ _ _ Hg Hi) as (Hi1 & Hsid & Hty & _).
-  assert (Hi2 : Inv_struct (set_lf st1 l (try_add_set f ty sn sid))) by (apply set_lf_struct; exact Hi1).
+  assert (Hi2 : Inv_struct (set_lf st1 l (try_add_set st1 f ty sn sid))) by (apply set_lf_struct; exact Hi1).
   destruct name; try (inv H; exact Hi2).
   destruct (hc && negb (hc_string s)); [inv H; exact Hi2|].
   match type of H with context [match ?o with OK _ => _ | Err _ => _ end] => destruct o end; [|inv H; exact Hi2].
@@ -207,7 +207,7 @@ Proof.
     unfold add_origin in E. destruct (lf_at st l) as [f|]; [|inv E; exact Hi].
     destruct (get_or_make_set st T_ORIGIN sn) as [st1 sid] eqn:Hg.
     destruct (gms_struct _ _ _ _ _ Hg Hi) as (Hi0 & _).
-    assert (Hi1 : Inv_struct (set_lf st1 l (try_add_set f T_ORIGIN sn sid))) by (apply set_lf_struct; exact Hi0).
+    assert (Hi1 : Inv_struct (set_lf st1 l (try_add_set st1 f T_ORIGIN sn sid))) by (apply set_lf_struct; exact Hi0).
     match type of E with context [match ?c with Some _ => _ | None => _ end = _] => destruct c end; [inv E; exact Hi1|].
     match type of E with context [add_common ?a ?b ?c ?d ?e0 ?f0 ?g ?h ?i ?j ?k] =>
       destruct (add_common a b c d e0 f0 g h i j k) as [st3 out3] eqn:Ea end.
